@@ -203,3 +203,91 @@ Section KEnv.
     - intros d t. apply dthreshold_bridge.
   Qed.
 End KEnv.
+
+(* ---------- Scanner::max on the kernels ---------- *)
+
+Section KMaxEq.
+  Context {T : Type}.
+  Variable geb gtb eqb : T -> T -> bool.
+  Variable is_nan : T -> bool.
+  Variable scale : T -> nat.
+  Variables sp sp' : nat -> res T.
+  Variables sr sr' : nat -> nat -> res dmatrix.
+  Variable kmax : dmatrix -> res (option nat).
+  Variable kthr : dmatrix -> nat -> list (nat * nat).
+  Variable R Lm B : nat.
+  Variable thr : T.
+
+  Hypothesis Hsp : forall i, i < Lm -> sp' i = sp i.
+  Hypothesis Hsr : forall a e, a <= e -> e <= R -> sr' a e = sr a e.
+  Hypothesis Hmax : forall a e d, a <= e -> e <= R -> sr a e = Ok d -> kmax d = Ok (dmax d).
+  Hypothesis Hthr : forall d t, kthr d t = dthreshold d t.
+
+  Lemma max_cands_ext rw d cands : forall best bd,
+    max_cands geb gtb eqb is_nan scale sp' R Lm thr rw d cands best bd =
+    max_cands geb gtb eqb is_nan scale sp R Lm thr rw d cands best bd.
+  Proof.
+    induction cands as [|[r c] rest IH]; intros best bd; simpl; [reflexivity|].
+    destruct (dget_res d r c) as [ds| | |]; simpl; auto.
+    destruct (bd <=? ds); simpl; [|apply IH].
+    destruct (Nat.ltb_spec (c * R + rw + r) Lm) as [Hlt|Hge]; simpl; [|apply IH].
+    rewrite (Hsp _ Hlt). destruct (sp (c * R + rw + r)) as [s| | |]; simpl; auto.
+    destruct best as [[bp bs]|].
+    - destruct (gtb s bs || eqb s bs && (bp <? c * R + rw + r)); [|apply IH].
+      destruct (hit_new is_nan (c * R + rw + r) s); simpl; auto.
+    - destruct (geb s thr); [|apply IH].
+      destruct (hit_new is_nan (c * R + rw + r) s); simpl; auto.
+  Qed.
+
+  Lemma ktake_k_eq k : forall s : st (T := T),
+    ktake_k geb is_nan scale sp' sr' kmax kthr R Lm B thr k s =
+    take_k geb is_nan scale sp sr R Lm B thr k s.
+  Proof.
+    induction k as [|k IH]; intros s; simpl; [reflexivity|].
+    rewrite (knext_eq geb is_nan scale sp sp' sr sr' kmax kthr R Lm B thr Hsp Hsr Hmax Hthr s).
+    destruct (next geb is_nan scale sp sr R Lm B thr s) as [[o s']| | |]; simpl; auto.
+    destruct o; [|reflexivity]. now rewrite IH.
+  Qed.
+
+  Lemma kmax_loop_eq fuel : forall rw best bd,
+    kmax_loop geb gtb eqb is_nan scale sp' sr' kmax kthr R Lm B thr fuel rw best bd =
+    max_loop geb gtb eqb is_nan scale sp sr R Lm B thr fuel rw best bd.
+  Proof.
+    induction fuel as [|f IH]; intros rw best bd; simpl; [reflexivity|].
+    destruct (Nat.ltb_spec rw R) as [Hlt|Hge]; [|reflexivity].
+    assert (H1 : rw <= Nat.min (rw + B) R) by lia.
+    assert (H2 : Nat.min (rw + B) R <= R) by lia.
+    rewrite (Hsr _ _ H1 H2).
+    destruct (sr rw (Nat.min (rw + B) R)) as [d| | |] eqn:Ed; simpl; auto.
+    rewrite (Hmax _ _ d H1 H2 Ed). cbn [rbind]. rewrite Hthr, max_cands_ext.
+    destruct (match dmax d with
+              | Some m => if bd <=? m then max_cands geb gtb eqb is_nan scale sp R Lm thr rw d (dthreshold d bd) best bd
+                          else Ok (best, bd)
+              | None => Ok (best, bd)
+              end) as [r| | |]; simpl; auto.
+  Qed.
+
+  Lemma kmax_after_eq k :
+    kmax_after geb gtb eqb is_nan scale sp' sr' kmax kthr R Lm B thr k =
+    max_after geb gtb eqb is_nan scale sp sr R Lm B thr k.
+  Proof.
+    unfold kmax_after, max_after. rewrite ktake_k_eq.
+    destruct (take_k geb is_nan scale sp sr R Lm B thr k init) as [[Y s]| | |]; cbn [rbind snd]; auto.
+    unfold ksmax, smax. destruct (max_by_score gtb eqb _) as [b0| | |]; cbn [rbind]; auto.
+    apply kmax_loop_eq.
+  Qed.
+End KMaxEq.
+
+Theorem k_max_after_eq (K : nat) (pssm : list (list F32.t)) (sq : list nat) (wrap : nat) (v : cenv)
+        (pads : nat -> list Z) am thr B k :
+  wf_input K 32 pssm sq wrap -> c_env K 32 pssm sq wrap = Ok v -> K <= 16 ->
+  Forall (fun row : list F32.t => length row = K) pssm -> (forall i, 16 <= K + length (pads i)) ->
+  k_max_after v am pads thr B k = ce_max_after v am thr B k.
+Proof.
+  intros Hwf Henv HK Hrows Hpads. unfold k_max_after, ce_max_after.
+  apply kmax_after_eq.
+  - intros i Hi. now apply (k_score_position_eq K pssm sq wrap v).
+  - intros a e Ha He. now apply (k_score_rows_eq K pssm sq wrap v).
+  - intros a e d Ha He E. exact (k_max_eq K pssm sq wrap v Hwf Henv am a e d Ha He E).
+  - intros d t. apply dthreshold_bridge.
+Qed.
